@@ -568,15 +568,16 @@ retry:
         continue;
       }
 
-      if (!traits::compare_nontrivial_key(acc, key)) {
-        continue;
-      }
-
       // The buckets of a block are no longer updated once a grow operation has replaced the block. So if
       // the block has been replaced in the meantime, the entry we have found might already have been removed
-      // (and its value reclaimed) via the new block -> restart the search in the new block.
+      // (and its node reclaimed) via the new block -> restart the search in the new block. This has to be
+      // checked before the node is dereferenced to compare a non-trivial key.
       if (data_block.load(std::memory_order_acquire) != b) {
         goto restart;
+      }
+
+      if (!traits::compare_nontrivial_key(acc, key)) {
+        continue;
       }
 
       result = std::move(acc);
@@ -601,11 +602,12 @@ retry:
         goto retry;
       }
 
+      // see above - the block might have been replaced by a grow operation in the meantime
+      if (data_block.load(std::memory_order_acquire) != b) {
+        goto restart;
+      }
+
       if (traits::compare_nontrivial_key(acc, key)) {
-        // see above - the block might have been replaced by a grow operation in the meantime
-        if (data_block.load(std::memory_order_acquire) != b) {
-          goto restart;
-        }
         result = std::move(acc);
         return true;
       }
